@@ -95,22 +95,27 @@ def audit_dict(tr, base=dict):
 
 
 class TClock:
-    """thread-safe logical clock; readings are logged per thread"""
-    def __init__(self):
+    """thread-safe logical clock; readings are logged per thread.  Reading the clock counts as an access to a shared object: the value read becomes the
+    server's time, so the reading belongs inside the critical section of the command (a reading taken before the lock is obtained can be older than the time
+    another command has already installed)"""
+    def __init__(self, tr=None):
         self.n = 0
         self.m = threading.Lock()
         self.logs = {}
+        self.tr = tr
 
     def time(self):
         with self.m:
             self.n += 1
             r = I.BASE + 2 * self.n
+        if self.tr is not None and hasattr(threading.current_thread(), 'tnum'):
+            self.tr.ev.append('acc:%d:%d:r' % (self.tr.tid(), self.tr.oid(self)))
         self.logs.setdefault(threading.current_thread().tnum, []).append(r)
         return r / 1e7
 
 
 def make_server(tr, version):
-    clock = TClock()
+    clock = TClock(tr)
     FS.time = clock
     import random as _r
     FS.random = _r
